@@ -14,13 +14,18 @@ package config
 import (
 	"encoding/base64"
 	"fmt"
+	"go/ast"
+	"go/parser"
+	"go/token"
 	mrand "math/rand"
 	"os"
 	"reflect"
 	"regexp"
+	"regexp/syntax"
 	"sort"
 	"strconv"
 	"strings"
+	"sync"
 	"testing"
 
 	"gopkg.in/yaml.v3"
@@ -48,6 +53,10 @@ type zzvRedactCase struct {
 
 var zzvClasses = []string{"ascii", "yamlspecial", "control", "leadnl", "nonutf8", "long"}
 
+// classes used for secrets in the mixed configurations: the text classes and the code-meaningful ones
+var zzvSecretClasses = append(append([]string(nil), zzvClasses...),
+	"dollarname", "braceref", "bracedef", "bracewild", "braceopen", "regexmatch", "constlike")
+
 const zzvAlnum = "abcdefghijklmnopqrstuvwxyzABCDEFGHIJKLMNOPQRSTUVWXYZ0123456789"
 
 func zzvRandStr(r *mrand.Rand, alphabet string, min, max int) string {
@@ -61,9 +70,197 @@ func zzvRandStr(r *mrand.Rand, alphabet string, min, max int) string {
 
 func zzvPick(r *mrand.Rand, xs []string) string { return xs[r.Intn(len(xs))] }
 
+// ---- what the configuration code itself gives a meaning to: the regular expressions and string constants of
+// config.go, read from the source of the package under test
+
+var (
+	zzvSrcOnce     sync.Once
+	zzvSrcPatterns []string // arguments of regexp.MustCompile / regexp.Compile
+	zzvSrcConsts   []string // other string literals (no struct tags, no imports)
+)
+
+func zzvLoadSource() {
+	zzvSrcOnce.Do(func() {
+		fset := token.NewFileSet()
+		f, err := parser.ParseFile(fset, "config.go", nil, 0)
+		if err != nil {
+			panic("zzv: cannot read config.go of the package under test: " + err.Error())
+		}
+		isPattern := map[*ast.BasicLit]bool{}
+		skip := map[*ast.BasicLit]bool{}
+		seen := map[string]bool{}
+		ast.Inspect(f, func(n ast.Node) bool {
+			switch x := n.(type) {
+			case *ast.ImportSpec:
+				skip[x.Path] = true
+			case *ast.Field:
+				if x.Tag != nil {
+					skip[x.Tag] = true
+				}
+			case *ast.CallExpr:
+				if sel, ok := x.Fun.(*ast.SelectorExpr); ok && len(x.Args) > 0 {
+					if id, ok := sel.X.(*ast.Ident); ok && id.Name == "regexp" {
+						if lit, ok := x.Args[0].(*ast.BasicLit); ok && lit.Kind == token.STRING {
+							isPattern[lit] = true
+						}
+					}
+				}
+			case *ast.BasicLit:
+				if x.Kind != token.STRING || skip[x] {
+					return true
+				}
+				v, err := strconv.Unquote(x.Value)
+				if err != nil || v == "" {
+					return true
+				}
+				if isPattern[x] {
+					zzvSrcPatterns = append(zzvSrcPatterns, v)
+				} else if len(v) <= 24 && !strings.Contains(v, "%") && !seen[v] {
+					seen[v] = true
+					zzvSrcConsts = append(zzvSrcConsts, v)
+				}
+			}
+			return true
+		})
+	})
+}
+
+// zzvRegexGen returns a string that the regular expression re matches as a whole and that contains marker
+// (spliced into a repetition whose character class admits every marker character); "" if it did not manage.
+func zzvRegexGen(r *mrand.Rand, pattern, marker string) string {
+	re, err := syntax.Parse(pattern, syntax.Perl)
+	if err != nil {
+		return ""
+	}
+	whole := regexp.MustCompile(`^(?:` + pattern + `)$`)
+	admits := func(sub *syntax.Regexp) bool {
+		one, err := regexp.Compile(`^(?:` + sub.String() + `)$`)
+		if err != nil {
+			return false
+		}
+		for _, c := range marker {
+			if !one.MatchString(string(c)) {
+				return false
+			}
+		}
+		return sub.Op == syntax.OpCharClass || sub.Op == syntax.OpAnyChar || sub.Op == syntax.OpAnyCharNotNL
+	}
+	for try := 0; try < 40; try++ {
+		placed := false
+		var gen func(x *syntax.Regexp) string
+		gen = func(x *syntax.Regexp) string {
+			switch x.Op {
+			case syntax.OpLiteral:
+				return string(x.Rune)
+			case syntax.OpCharClass:
+				var cand []rune
+				for i := 0; i+1 < len(x.Rune); i += 2 {
+					for c := x.Rune[i]; c <= x.Rune[i+1] && c < 0x250 && len(cand) < 400; c++ {
+						cand = append(cand, c)
+					}
+				}
+				if len(cand) == 0 {
+					return ""
+				}
+				return string(cand[r.Intn(len(cand))])
+			case syntax.OpAnyChar, syntax.OpAnyCharNotNL:
+				return string(rune(33 + r.Intn(90)))
+			case syntax.OpCapture:
+				return gen(x.Sub[0])
+			case syntax.OpConcat:
+				var sb strings.Builder
+				for _, sub := range x.Sub {
+					sb.WriteString(gen(sub))
+				}
+				return sb.String()
+			case syntax.OpAlternate:
+				return gen(x.Sub[r.Intn(len(x.Sub))])
+			case syntax.OpStar, syntax.OpPlus, syntax.OpQuest, syntax.OpRepeat:
+				min, max := 0, -1
+				switch x.Op {
+				case syntax.OpPlus:
+					min = 1
+				case syntax.OpQuest:
+					max = 1
+				case syntax.OpRepeat:
+					min, max = x.Min, x.Max
+				}
+				var sb strings.Builder
+				n := min + r.Intn(6)
+				if max >= 0 && n > max {
+					n = max
+				}
+				for i := 0; i < n; i++ {
+					if !placed && i == n/2 && (max < 0 || n+len(marker) <= max) && admits(x.Sub[0]) {
+						sb.WriteString(marker)
+						placed = true
+					}
+					sb.WriteString(gen(x.Sub[0]))
+				}
+				if !placed && n == 0 && max != 0 && (max < 0 || len(marker) <= max) && admits(x.Sub[0]) {
+					sb.WriteString(marker)
+					placed = true
+				}
+				return sb.String()
+			}
+			return "" // empty-width operators
+		}
+		if v := gen(re); placed && whole.MatchString(v) && strings.Contains(v, marker) {
+			return v
+		}
+	}
+	return ""
+}
+
+const zzvIdent = "abcdefghijklmnopqrstuvwxyzABCDEFGHIJKLMNOPQRSTUVWXYZ0123456789_"
+
+// bytes that may stand between "${" and "}": anything but the closing brace
+func zzvNoBrace(r *mrand.Rand, n int) string {
+	pool := []string{" ", ":", "-", ":-", "{", "$", "\"", "'", "#", ": ", "\t", "\x01", "\x7f", "\xff\xfe", "\xc3\x28", "é", "x", "Q7", "\n", "=", "[", "*"}
+	var sb strings.Builder
+	for i := 0; i < n; i++ {
+		sb.WriteString(zzvPick(r, pool))
+	}
+	return sb.String()
+}
+
 // zzvGen instantiates a value class; the marker is embedded verbatim.
 func zzvGen(r *mrand.Rand, class, marker string) string {
 	switch class {
+	case "dollarname": // whole value = $NAME
+		return "$" + zzvPick(r, []string{"uperSecret", "pw_", "P", "_", "DB_PASS", "x9"}) + marker + zzvRandStr(r, zzvIdent, 0, 6)
+	case "braceref": // whole value = ${NAME}
+		return "${" + zzvPick(r, []string{"", "PROXY_PW_", "k", "_"}) + marker + zzvRandStr(r, zzvIdent, 0, 6) + "}"
+	case "bracedef": // whole value = ${NAME:-default}
+		return "${" + zzvRandStr(r, "ABCDEFGHIJKLMNOPQRSTUVWXYZ_", 1, 8) + ":-" + zzvPick(r, []string{"", "hunter2 ", "p w", "$", ": "}) + marker +
+			zzvPick(r, []string{"", " ", "!", "{"}) + "}"
+	case "bracewild": // ${ + anything without a closing brace + }
+		return "${" + zzvNoBrace(r, r.Intn(4)) + marker + zzvNoBrace(r, r.Intn(4)) + "}"
+	case "braceopen": // ${ never closed
+		return "${" + zzvNoBrace(r, r.Intn(3)) + marker + zzvNoBrace(r, r.Intn(4))
+	case "regexmatch": // a whole-value match of a regular expression compiled in config.go
+		zzvLoadSource()
+		for i := 0; i < 2*len(zzvSrcPatterns); i++ {
+			if v := zzvRegexGen(r, zzvSrcPatterns[r.Intn(len(zzvSrcPatterns))], marker); v != "" {
+				return v
+			}
+		}
+		return "$" + marker // no usable pattern in the source: the classic reference shape
+	case "constlike": // a string constant of config.go with the secret around it
+		zzvLoadSource()
+		c := "[REDACTED]"
+		if len(zzvSrcConsts) > 0 && r.Intn(4) > 0 {
+			c = zzvPick(r, zzvSrcConsts)
+		}
+		switch r.Intn(4) {
+		case 0:
+			return c + marker
+		case 1:
+			return marker + c
+		case 2:
+			return c + " " + marker + " " + c
+		}
+		return c + marker + c
 	case "ascii":
 		return zzvRandStr(r, zzvAlnum+"_./:-", 0, 10) + marker + zzvRandStr(r, zzvAlnum+"_./:-", 0, 10)
 	case "yamlspecial":
@@ -369,7 +566,7 @@ func TestZZVRedact(t *testing.T) {
 			if s == rc.C.Focus {
 				cl = rc.C.FClass
 			} else if mix && rng.Intn(3) > 0 {
-				cl = zzvClasses[rng.Intn(len(zzvClasses))]
+				cl = zzvSecretClasses[rng.Intn(len(zzvSecretClasses))]
 			}
 			f := zzvSecretField(cfg, s)
 			if cl == "empty" {
@@ -478,7 +675,8 @@ func TestZZVRedact(t *testing.T) {
 	}
 	zzvEmit("summary", map[string]any{"cases": len(in.Cases), "evaluations": evals, "mixed": mixed, "leaks": leaks,
 		"orig_changed": changed, "returned_original": aliased, "detector_blind": blind, "unmasked": unmasked, "violation_classes": nviol,
-		"max_rendering_bytes": maxOut, "samples": sample})
+		"max_rendering_bytes": maxOut, "samples": sample,
+		"source_patterns": zzvSrcPatterns, "source_constants": len(zzvSrcConsts)})
 }
 
 // ------------------------------------------------------------------------------------------------ expansion
